@@ -31,9 +31,9 @@ import (
 // their order, are cut into up to three runs, each of which is either a run
 // of tagged fields or one inline member (maps of several types, structs,
 // pointers, an interface{}-typed field, a struct nested in an inline struct).
-// Every field is tagged under all of tagNames: the tag the options of the
-// case select (primary) names the keys of the tree, the others carry names
-// made by altTag. A field whose key is one lower-case letter may have no
+// Every field is tagged under the tag the options of the case select
+// (primary), which names the keys of the tree, and under one other of tagNames
+// (all others if allTags), which carry names made by altTag. A field whose key is one lower-case letter may have no
 // primary tag and the upper-cased key as its Go name instead (goFieldName).
 type builder struct {
 	opts     []ucfg.Option
@@ -43,6 +43,7 @@ type builder struct {
 	scheme   int  // how the other tags name the fields (altTag)
 	sep      string
 	noConfig bool // no embedded *Config (it is normalised when it is built, under the options of that moment)
+	allTags  bool // every field carries all four tags (the value is read under several of them); otherwise the primary one and one other, which keeps the type names short (reflect never frees a type)
 }
 
 type (
@@ -225,6 +226,9 @@ func (b *builder) fieldTag(t *gen.Tree, i int) reflect.StructTag {
 	for j, name := range tagNames {
 		text := keys[i]
 		if j != b.primary {
+			if !b.allTags && j != (b.primary+1+i%3)%4 {
+				continue
+			}
 			text = altTag(b.scheme, j, i, keys, b.sep)
 		} else if goFieldName(t, i) == strings.ToUpper(text) {
 			b.use("struct field without tag")
@@ -239,22 +243,29 @@ func (b *builder) inlineTag(run int, word string) reflect.StructTag {
 	var p []string
 	for j, name := range tagNames {
 		text := "," + word
-		if j != b.primary && (b.scheme+j)%nSchemes == 4 {
-			text = fmt.Sprintf("m%d", run)
+		if j != b.primary {
+			if !b.allTags {
+				continue
+			}
+			if (b.scheme+j)%nSchemes == 4 {
+				text = fmt.Sprintf("m%d", run)
+			}
 		}
 		p = append(p, name+":"+strconv.Quote(text))
 	}
 	return reflect.StructTag(strings.Join(p, " "))
 }
 
-// alwaysInline inlines a field under every tag name.
-var alwaysInline = func() reflect.StructTag {
+// alwaysInline inlines a field under every tag name that is read.
+func (b *builder) alwaysInline() reflect.StructTag {
 	var p []string
-	for _, name := range tagNames {
-		p = append(p, name+`:",squash"`)
+	for j, name := range tagNames {
+		if j == b.primary || b.allTags {
+			p = append(p, name+`:",squash"`)
+		}
 	}
 	return reflect.StructTag(strings.Join(p, " "))
-}()
+}
 
 // viewUnder returns the tree as it reads under tag j: the objects the builder
 // writes as structs have their keys replaced by what tag j says. The result
@@ -622,7 +633,7 @@ func (b *builder) structOf(t *gen.Tree, vals []interface{}) interface{} {
 				p.Elem().Set(sv)
 				member = p.Interface()
 			case segNested:
-				outer := reflect.New(reflect.StructOf([]reflect.StructField{{Name: "In", Type: sv.Type(), Tag: alwaysInline}})).Elem()
+				outer := reflect.New(reflect.StructOf([]reflect.StructField{{Name: "In", Type: sv.Type(), Tag: b.alwaysInline()}})).Elem()
 				outer.Field(0).Set(sv)
 				member = outer.Interface()
 			default:
